@@ -106,6 +106,17 @@ func (c13) Gen(r *sim.Rand, tier string, run uint64) *sim.Scenario {
 				if e < s {
 					e = s
 				}
+			} else if s > 0x100 && r.Chance(1, 12) {
+				// an inverted range (end below start, e.g. a size passed where the end belongs):
+				// it covers no address, so it may route nothing; mis-aligned, it must be rejected
+				size := e - s + 1
+				e = int64(sim.PickInt(r, int(size), int(size)-1, int(s)-1, int(s)-17, 0xF, 0x10, r.Intn(int(s))))
+				if e < 0 || e >= s {
+					e = 0xF
+				}
+				ops = append(ops, sim.Op{K: "attach", N: []int64{int64(r.Intn(ndev)), s, e}})
+				edges = append(edges, s, s+size-1)
+				continue
 			}
 			ops = append(ops, sim.Op{K: "attach", N: []int64{int64(r.Intn(ndev)), s, e}})
 			edges = append(edges, s, e)
@@ -230,6 +241,22 @@ func (c13) Exec(sc *sim.Scenario, env *sim.Env) *sim.Violation {
 	for i := range owner {
 		owner[i] = -1
 	}
+	// spot: one read of the bus at a against the routing model
+	spot := func(a uint32) *sim.Violation {
+		own := owner[a>>4]
+		var got byte
+		p, _ := sim.RecoverLib(func() { got = b.EaRead(a) })
+		if own < 0 {
+			if !p {
+				return &sim.Violation{Oracle: "hole_not_loud", Msg: fmt.Sprintf("a read at %06x, which no range was attached over, did not fail (returned %02x)", a, got)}
+			}
+			return nil
+		}
+		if p || got != peek(own, a) {
+			return &sim.Violation{Oracle: "routing", Msg: fmt.Sprintf("a read at %06x (owner dev%d) gives %02x (panicked=%v), want %02x", a, own, got, p, peek(own, a))}
+		}
+		return nil
+	}
 	logLen := func() int {
 		n := 0
 		for _, d := range devs {
@@ -254,6 +281,30 @@ func (c13) Exec(sc *sim.Scenario, env *sim.Env) *sim.Violation {
 			}
 			s, e := uint32(op.Arg(1))&0xFFFFFF, uint32(op.Arg(2))&0xFFFFFF
 			if e < s {
+				// the range [s,e] is empty: nothing may be routed by it (every later op checks the
+				// routing against the unchanged model); mis-aligned bounds must still be rejected
+				var aerr error
+				p, pv := sim.RecoverLib(func() { aerr = b.Attach(devs[dev], fmt.Sprintf("dev%d", dev), s, e) })
+				env.ObsBool(p)
+				if p {
+					return &sim.Violation{Oracle: "attach_panic", Step: i, Msg: fmt.Sprintf("Attach(%06x,%06x) panicked: %s", s, e, sim.PanicString(pv))}
+				}
+				if (s&0xF != 0 || (e+1)&0xF != 0) && aerr == nil {
+					return &sim.Violation{Oracle: "attach_outcome", Step: i, Msg: fmt.Sprintf("Attach(%06x,%06x): bounds not 16-byte aligned but no error", s, e)}
+				}
+				if logLen() != 0 {
+					return &sim.Violation{Oracle: "attach_touched_device", Step: i, Msg: "Attach accessed a device"}
+				}
+				st.Probe("attach_inverted_range")
+				nontrivial = true
+				// spot check both ends of what a size-reading of the call would have covered
+				for _, a := range []uint32{s, (s + e - 1) & 0xFFFFFF, (s + e/2) & 0xFFFFFF} {
+					if v := spot(a); v != nil {
+						v.Step = i
+						v.Msg = fmt.Sprintf("after Attach(%06x,%06x) (end below start: an empty range): ", s, e) + v.Msg
+						return v
+					}
+				}
 				continue
 			}
 			aligned := s&0xF == 0 && (e+1)&0xF == 0
